@@ -13,7 +13,7 @@ SHARDS = {"quick": 16, "thorough": 16}
 WATCHDOG = {"quick": 1200, "thorough": 7200}
 CASES = {"quick": 70, "thorough": 500}
 FLOORS = {
-    "quick": {"distinct_nontrivial": 360, "identity_rows": 58000, "direct_rows": 52000,
+    "quick": {"adapters_whose_cost_got_its_parameter_after_construction": 54, "regular_subbatch_rows": 13343, "distinct_nontrivial": 360, "identity_rows": 58000, "direct_rows": 52000,
               "inequality_rows": 25000, "cases[user-cost]": 85, "long_series_rows": 8},
     "thorough": {"distinct_nontrivial": 3000, "identity_rows": 400000},
 }
